@@ -3,7 +3,7 @@ from props.polycases import P, W, GRID, coef, poly, grp
 
 ID = "C09"
 GEN_TAGS = ["PolyGen"]
-PROOF_TARGETS = ["proofs/PolyDivProofs.vo"]
+PROOF_TARGETS = ["proofs/PolyDivProofs.vo", "proofs/XFieldPoly.vo"]
 PROPS_FILE = "props/C09.v"
 EXTRACT = "extract/ExtractC09.vo"
 ORACLE = ("gen_c09", "c09.ml")
